@@ -1,11 +1,1333 @@
 package main
 
+// Differential harness: generates cases, runs the real library in-process and prints one
+// protocol line per case (`CMD id fields… => observed…`), to be judged by the Lean driver.
+
 import (
+	"bufio"
+	"bytes"
+	"encoding/hex"
+	"errors"
 	"fmt"
+	"os"
+	"strconv"
+	"strings"
+	"sync"
+	"time"
+
+	legacy "github.com/evanphx/json-patch"
 	jsonpatch "github.com/evanphx/json-patch/v5"
 	ijson "github.com/evanphx/json-patch/v5/internal/json"
 )
 
+var out *bufio.Writer
+
+func hx(b []byte) string {
+	if len(b) == 0 {
+		return "-"
+	}
+	return hex.EncodeToString(b)
+}
+
+var emitMu sync.Mutex
+
+func emit(format string, a ...interface{}) {
+	emitMu.Lock()
+	defer emitMu.Unlock()
+	fmt.Fprintf(out, format, a...)
+	out.WriteByte('\n')
+}
+
+// ---------- guarded calls ----------
+
+const hangAfter = 180 * time.Second
+
+func guarded(f func() string) string {
+	ch := make(chan string, 1)
+	go func() {
+		defer func() {
+			if r := recover(); r != nil {
+				ch <- "panic"
+			}
+		}()
+		ch <- f()
+	}()
+	select {
+	case s := <-ch:
+		return s
+	case <-time.After(hangAfter):
+		return "hang"
+	}
+}
+
+func errFlag(err error) string {
+	var ce *jsonpatch.AccumulatedCopySizeError
+	var lce *legacy.AccumulatedCopySizeError
+	switch {
+	case errors.As(err, &ce), errors.As(err, &lce):
+		return "C"
+	case errors.Is(err, jsonpatch.ErrTestFailed), errors.Is(err, legacy.ErrTestFailed):
+		return "T"
+	case errors.Is(err, jsonpatch.ErrMissing), errors.Is(err, legacy.ErrMissing):
+		return "M"
+	case errors.Is(err, jsonpatch.ErrInvalidIndex), errors.Is(err, legacy.ErrInvalidIndex):
+		return "I"
+	case errors.Is(err, jsonpatch.ErrInvalid), errors.Is(err, legacy.ErrInvalid):
+		return "V"
+	case errors.Is(err, jsonpatch.ErrExpectedObject):
+		return "X"
+	case err == jsonpatch.ErrBadJSONDoc, err == legacy.ErrBadJSONDoc:
+		return "D"
+	case err == jsonpatch.ErrBadJSONPatch, err == legacy.ErrBadJSONPatch:
+		return "P"
+	case err.Error() == "Mismatched JSON Documents":
+		return "Y"
+	}
+	return "-"
+}
+
+func obsOf(outb []byte, err error) string {
+	if err != nil {
+		n := "n"
+		if outb != nil {
+			n = "d"
+		}
+		return "err:" + errFlag(err) + n
+	}
+	return "ok:" + hx(outb)
+}
+
+type aopts struct {
+	neg, allow, ensure, esc bool
+	limit                   int64
+}
+
+func b01(b bool) string {
+	if b {
+		return "1"
+	}
+	return "0"
+}
+func (o aopts) flags() string { return b01(o.neg) + b01(o.allow) + b01(o.ensure) + b01(o.esc) }
+func (o aopts) v5() *jsonpatch.ApplyOptions {
+	op := jsonpatch.NewApplyOptions()
+	op.SupportNegativeIndices = o.neg
+	op.AllowMissingPathOnRemove = o.allow
+	op.EnsurePathExistsOnAdd = o.ensure
+	op.EscapeHTML = o.esc
+	op.AccumulatedCopySizeLimit = o.limit
+	return op
+}
+
+// DecodePatch + ApplyIndentWithOptions
+func callApply(o aopts, indent string, doc, patch []byte) string {
+	return guarded(func() string {
+		p, err := jsonpatch.DecodePatch(patch)
+		if err != nil {
+			return "derr"
+		}
+		outb, err := p.ApplyIndentWithOptions(doc, indent, o.v5())
+		return obsOf(outb, err)
+	})
+}
+
+func callApplyDecoded(o aopts, indent string, doc []byte, p jsonpatch.Patch) string {
+	return guarded(func() string {
+		outb, err := p.ApplyIndentWithOptions(doc, indent, o.v5())
+		return obsOf(outb, err)
+	})
+}
+
+func callMerge(doc, patch []byte) string {
+	return guarded(func() string { return obsOf(jsonpatch.MergePatch(doc, patch)) })
+}
+func callMergeMerge(a, b []byte) string {
+	return guarded(func() string { return obsOf(jsonpatch.MergeMergePatches(a, b)) })
+}
+func callCreate(a, b []byte) string {
+	return guarded(func() string { return obsOf(jsonpatch.CreateMergePatch(a, b)) })
+}
+func callEqual(a, b []byte) string {
+	return guarded(func() string {
+		if jsonpatch.Equal(a, b) {
+			return "t"
+		}
+		return "f"
+	})
+}
+
+func okBytes(obs string) ([]byte, bool) {
+	if !strings.HasPrefix(obs, "ok:") {
+		return nil, false
+	}
+	if obs == "ok:-" {
+		return []byte{}, true
+	}
+	b, err := hex.DecodeString(obs[3:])
+	return b, err == nil
+}
+
+// ---------- operations ----------
+
+type opSpec struct {
+	op, path string
+	from     *string
+	value    *jv
+	extra    bool
+}
+
+func (sp spell) opText(o opSpec) string {
+	var parts []string
+	parts = append(parts, `"op":`+sp.ws()+encString(o.op, false))
+	parts = append(parts, `"path":`+sp.ws()+encString(o.path, false))
+	if o.from != nil {
+		parts = append(parts, `"from":`+encString(*o.from, false))
+	}
+	if o.value != nil {
+		parts = append(parts, `"value":`+sp.ws()+sp.print(o.value))
+	}
+	if o.extra {
+		parts = append(parts, `"comment":"x"`)
+	}
+	if sp.mode == 2 && sp.r.chance(1, 3) && len(parts) > 2 {
+		i, j := sp.r.n(len(parts)), sp.r.n(len(parts))
+		parts[i], parts[j] = parts[j], parts[i]
+	}
+	return "{" + strings.Join(parts, ","+sp.ws()) + "}"
+}
+
+func (sp spell) patchText(ops []opSpec) []byte {
+	var xs []string
+	for _, o := range ops {
+		xs = append(xs, sp.opText(o))
+	}
+	return []byte("[" + strings.Join(xs, ","+sp.ws()) + "]")
+}
+
+// last token for a container
+func pickToken(r *rng, c *jv, forAdd bool) string {
+	if c.kind == kObj {
+		k := r.n(100)
+		switch {
+		case k < 50 && len(c.keys) > 0:
+			return encTok(c.keys[r.n(len(c.keys))])
+		case k < 85:
+			return r.pick(plainNames)
+		default:
+			return encTok(r.pick(namePool))
+		}
+	}
+	n := len(c.arr)
+	k := r.n(100)
+	switch {
+	case k < 45 && n > 0:
+		return strconv.Itoa(r.n(n))
+	case k < 55:
+		return strconv.Itoa(n)
+	case k < 68:
+		return "-"
+	case k < 72:
+		return strconv.Itoa(n + 1)
+	case k < 80:
+		return "-1"
+	case k < 84:
+		return strconv.Itoa(-n)
+	case k < 88:
+		return strconv.Itoa(-n - 1)
+	case k < 90:
+		return strconv.Itoa(-n - 2)
+	case k < 92:
+		return "0" + strconv.Itoa(r.n(n+1))
+	case k < 94:
+		return "+" + strconv.Itoa(r.n(n+1))
+	case k < 96:
+		return "x"
+	default:
+		return strconv.Itoa(r.n(n + 1))
+	}
+}
+
+func pickPath(r *rng, cur *jv, forAdd bool) string {
+	var locs []loc
+	locations(cur, "", &locs)
+	k := r.n(100)
+	switch {
+	case k < 3:
+		return ""
+	case k < 5:
+		return r.pick([]string{"a/b", "a", "/", "//a", "/a/", "/a//b"})
+	case k < 13:
+		// through a scalar, a null or something absent
+		l := locs[r.n(len(locs))]
+		return l.ptr + "/" + r.pick([]string{"zz", "0", "x/y", "0/1", "-"}) + "/" + r.pick([]string{"k", "0", "-"})
+	}
+	var cons []loc
+	for _, l := range locs {
+		if l.v.isCon() {
+			cons = append(cons, l)
+		}
+	}
+	c := cons[r.n(len(cons))]
+	return c.ptr + "/" + pickToken(r, c.v, forAdd)
+}
+
+func existingPath(r *rng, cur *jv) string {
+	var locs []loc
+	locations(cur, "", &locs)
+	if len(locs) == 1 {
+		return pickPath(r, cur, false)
+	}
+	return locs[1+r.n(len(locs)-1)].ptr
+}
+
+func resolve(cur *jv, ptr string) *jv {
+	var locs []loc
+	locations(cur, "", &locs)
+	for _, l := range locs {
+		if l.ptr == ptr {
+			return l.v
+		}
+	}
+	return nil
+}
+
+func genOp(r *rng, cur *jv, c genCfg) opSpec {
+	k := r.n(100)
+	val := func() *jv {
+		if r.chance(1, 5) {
+			return jnull()
+		}
+		return genValue(r, genCfg{depth: 2, plain: c.plain, nullW: c.nullW, maxMember: 3}, 1)
+	}
+	pathOrExisting := func(p int) string {
+		if r.n(100) < p {
+			return existingPath(r, cur)
+		}
+		return pickPath(r, cur, false)
+	}
+	switch {
+	case k < 25:
+		return opSpec{op: "add", path: pickPath(r, cur, true), value: val()}
+	case k < 40:
+		return opSpec{op: "remove", path: pathOrExisting(75)}
+	case k < 55:
+		return opSpec{op: "replace", path: pathOrExisting(75), value: val()}
+	case k < 67:
+		f := pathOrExisting(85)
+		return opSpec{op: "move", path: pickPath(r, cur, true), from: &f}
+	case k < 80:
+		f := pathOrExisting(85)
+		if r.chance(1, 12) {
+			f = ""
+		}
+		return opSpec{op: "copy", path: pickPath(r, cur, true), from: &f}
+	default:
+		p := pathOrExisting(80)
+		var v *jv
+		if t := resolve(cur, p); t != nil && r.chance(3, 4) {
+			v = t.clone()
+			if v.kind == kObj && len(v.keys) > 1 && r.chance(1, 2) {
+				v.keys[0], v.keys[1] = v.keys[1], v.keys[0]
+				v.vals[0], v.vals[1] = v.vals[1], v.vals[0]
+			}
+		} else if r.chance(1, 6) {
+			v = nil // no value member: compares as null
+		} else {
+			v = val()
+		}
+		return opSpec{op: "test", path: p, value: v}
+	}
+}
+
+type acase struct {
+	o      aopts
+	indent string
+	doc    []byte
+	ops    []opSpec
+	patch  []byte
+}
+
+// generate a document and a patch whose pointers are relative to the document as it
+// evolves (the prefix is applied with the real library to know the current document)
+func genApplyCase(r *rng, c genCfg, o aopts, docMode, patchMode int, maxOps int) acase {
+	docv := genContainer(r, c)
+	doc := spell{docMode, r}.text(docv)
+	psp := spell{patchMode, r}
+	nops := r.n(maxOps + 1)
+	var ops []opSpec
+	cur := docv
+	oo := o
+	oo.limit = 0
+	failed := 0
+	for i := 0; i < nops; i++ {
+		op := genOp(r, cur, c)
+		if o.ensure && op.op == "add" && r.chance(1, 2) {
+			op.path = ensurePath(r, cur)
+		}
+		ops = append(ops, op)
+		res := callApply(oo, "", doc, spell{1, r}.patchText(ops))
+		if b, ok := okBytes(res); ok {
+			if v, err := parseJV(b); err == nil && v.isCon() {
+				cur = v
+				continue
+			}
+		}
+		// the patch fails from here on; add at most two more operations
+		failed++
+		if failed > 2 || r.chance(1, 2) {
+			break
+		}
+	}
+	return acase{o: o, doc: doc, ops: ops, patch: psp.patchText(ops)}
+}
+
+// a path for EnsurePathExistsOnAdd: an existing prefix, then fresh tokens
+func ensurePath(r *rng, cur *jv) string {
+	var locs []loc
+	locations(cur, "", &locs)
+	var cons []loc
+	for _, l := range locs {
+		if l.v.isCon() {
+			cons = append(cons, l)
+		}
+	}
+	c := cons[r.n(len(cons))]
+	p := c.ptr
+	n := 1 + r.n(4)
+	at := c.v
+	for i := 0; i < n; i++ {
+		var tok string
+		k := r.n(100)
+		isArr := at != nil && at.kind == kArr
+		switch {
+		case isArr && k < 70:
+			tok = strconv.Itoa(len(at.arr) + r.n(3))
+		case isArr:
+			tok = r.pick([]string{"-", "x", "-1", "0"})
+		case k < 55:
+			tok = "n" + strconv.Itoa(r.n(4))
+		case k < 75:
+			tok = strconv.Itoa(r.n(4))
+		case k < 83:
+			tok = "-"
+		case k < 93:
+			tok = encTok(r.pick(namePool))
+		default:
+			tok = r.pick([]string{"-1", "01", "+2"})
+		}
+		p += "/" + tok
+		at = nil
+		if i == 0 {
+			// may still be an existing child
+			if x := resolve(cur, p); x != nil {
+				at = x
+			}
+		}
+	}
+	return p
+}
+
+func randOpts(r *rng) aopts {
+	return aopts{neg: r.chance(3, 4), allow: r.chance(1, 8), ensure: r.chance(1, 10), esc: r.chance(1, 2)}
+}
+
+func firstFailing(c acase) string {
+	// obs of the patch cut after the first failing operation (same spelling)
+	elems := splitArray(c.patch)
+	for k := 1; k <= len(elems); k++ {
+		res := callApply(c.o, "", c.doc, []byte("["+strings.Join(elems[:k], ",")+"]"))
+		if !strings.HasPrefix(res, "ok:") {
+			return res
+		}
+	}
+	return ""
+}
+
+func emitApply(id string, c acase) {
+	docSnap := append([]byte(nil), c.doc...)
+	patchSnap := append([]byte(nil), c.patch...)
+	obs := callApply(c.o, c.indent, c.doc, c.patch)
+	extra := ""
+	if strings.HasPrefix(obs, "err:") && len(c.ops) > 1 {
+		// the truncated patch is spelled canonically; compare only outcome classes
+		if t := firstFailing(c); t != "" {
+			extra += " trunc=" + t
+		}
+	}
+	if c.indent != "" {
+		extra += " plain=" + callApply(c.o, "", c.doc, c.patch)
+	}
+	if !bytes.Equal(docSnap, c.doc) || !bytes.Equal(patchSnap, c.patch) {
+		extra += " mut=1"
+	}
+	emit("APPLY %s %s %d %s %s %s => %s%s", id, c.o.flags(), c.o.limit, hx([]byte(c.indent)), hx(c.doc), hx(c.patch), obs, extra)
+}
+
+// ---------- streams ----------
+
+func cfgFor(r *rng) genCfg {
+	return genCfg{depth: 1 + r.n(3), plain: r.chance(1, 3), nullW: 1 + r.n(3), maxMember: 2 + r.n(3)}
+}
+
+func streamApply(r *rng, n int, pfx string) {
+	for i := 0; i < n; i++ {
+		o := randOpts(r)
+		dm, pm := r.n(3), r.n(3)
+		c := genApplyCase(r, cfgFor(r), o, dm, pm, 6)
+		if r.chance(1, 10) {
+			c.indent = r.pick([]string{" ", "  ", "\t", "    "})
+		}
+		emitApply(fmt.Sprintf("%s%d", pfx, i), c)
+	}
+}
+
+func streamEnsure(r *rng, n int, pfx string) {
+	for i := 0; i < n; i++ {
+		o := randOpts(r)
+		o.ensure = true
+		o.allow = false
+		c := genApplyCase(r, cfgFor(r), o, r.n(3), r.n(3), 4)
+		emitApply(fmt.Sprintf("%s%d", pfx, i), c)
+	}
+}
+
+// cumulative copy totals, learnt from the library's own error values
+func copyTotals(c acase) []int64 {
+	var totals []int64
+	limit := int64(1)
+	for len(totals) < 16 {
+		o := c.o
+		o.limit = limit
+		p, err := jsonpatch.DecodePatch(c.patch)
+		if err != nil {
+			return totals
+		}
+		var acc int64 = -1
+		guarded(func() string {
+			_, err := p.ApplyWithOptions(c.doc, o.v5())
+			var ce *jsonpatch.AccumulatedCopySizeError
+			if errors.As(err, &ce) {
+				s := ce.Error()
+				// "Unable to complete the copy, the accumulated size increase of copy is %d, exceeding the limit %d"
+				if i := strings.Index(s, "copy is "); i >= 0 {
+					rest := s[i+len("copy is "):]
+					if j := strings.Index(rest, ","); j >= 0 {
+						acc, _ = strconv.ParseInt(rest[:j], 10, 64)
+					}
+				}
+			}
+			return ""
+		})
+		if acc <= 0 {
+			return totals
+		}
+		totals = append(totals, acc)
+		limit = acc
+	}
+	return totals
+}
+
+func streamLimit(r *rng, n int, pfx string) {
+	for i := 0; i < n; {
+		o := randOpts(r)
+		o.ensure = false
+		c := genApplyCase(r, cfgFor(r), o, r.n(3), r.n(3), 6)
+		hasCopy := false
+		for _, op := range c.ops {
+			if op.op == "copy" {
+				hasCopy = true
+			}
+		}
+		if !hasCopy {
+			// make one: duplicate something existing
+			var docv *jv
+			if v, err := parseJV(c.doc); err == nil {
+				docv = v
+			} else {
+				continue
+			}
+			f := existingPath(r, docv)
+			c.ops = append([]opSpec{{op: "copy", path: pickPath(r, docv, true), from: &f}}, c.ops...)
+			c.patch = spell{r.n(3), r}.patchText(c.ops)
+		}
+		totals := copyTotals(c)
+		if len(totals) == 0 {
+			c.o.limit = int64(1 + r.n(50))
+		} else {
+			t := totals[r.n(len(totals))]
+			c.o.limit = t + int64(r.n(3)) - 1
+			if c.o.limit < 0 {
+				c.o.limit = 0
+			}
+		}
+		emitApply(fmt.Sprintf("%s%d", pfx, i), c)
+		i++
+	}
+}
+
+func streamAllow(r *rng, n int, pfx string) {
+	for i := 0; i < n; i++ {
+		o := randOpts(r)
+		o.allow = true
+		o.ensure = false
+		cfg := cfgFor(r)
+		c := genApplyCase(r, cfg, o, r.n(3), 1, 6)
+		// make removes frequent: turn some operations into removes of near-miss paths
+		if v, err := parseJV(c.doc); err == nil {
+			for k := range c.ops {
+				if r.chance(1, 4) {
+					c.ops[k] = opSpec{op: "remove", path: pickPath(r, v, false)}
+				}
+			}
+		}
+		var texts []string
+		for _, op := range c.ops {
+			texts = append(texts, spell{1, r}.opText(op))
+		}
+		allowLine(fmt.Sprintf("%s%d", pfx, i), o, c.doc, texts)
+	}
+}
+
+// ALLOW line: the patch with the option on, the removes the option skips (found by
+// applying one operation at a time), and the rewritten patch with the option off
+func allowLine(id string, o aopts, doc []byte, texts []string) {
+	join := func(xs []string) []byte { return []byte("[" + strings.Join(xs, ",") + "]") }
+	on := o
+	on.allow = true
+	off := o
+	off.allow = false
+	cur := doc
+	var skipped []string
+	var kept []string
+	alive := true
+	for k, t := range texts {
+		if !alive {
+			kept = append(kept, t)
+			continue
+		}
+		one := join([]string{t})
+		ron := callApply(on, "", cur, one)
+		isRemove := false
+		if p, err := jsonpatch.DecodePatch(one); err == nil && len(p) == 1 && p[0].Kind() == "remove" {
+			isRemove = true
+		}
+		if isRemove {
+			roff := callApply(off, "", cur, one)
+			if strings.HasPrefix(ron, "ok:") && !strings.HasPrefix(roff, "ok:") {
+				skipped = append(skipped, strconv.Itoa(k))
+				if b, ok := okBytes(ron); ok {
+					cur = b
+				}
+				continue
+			}
+		}
+		kept = append(kept, t)
+		if b, ok := okBytes(ron); ok {
+			cur = b
+		} else {
+			alive = false
+		}
+	}
+	patch := join(texts)
+	obsOn := callApply(on, "", doc, patch)
+	obsOff := callApply(off, "", doc, join(kept))
+	sk := "-"
+	if len(skipped) > 0 {
+		sk = strings.Join(skipped, ",")
+	}
+	emit("ALLOW %s %s %s %s => %s %s %s", id, on.flags(), hx(doc), hx(patch), obsOn, sk, obsOff)
+}
+
+func streamTestTr(r *rng, n int, pfx string) {
+	for i := 0; i < n; {
+		o := randOpts(r)
+		o.allow, o.ensure = false, false
+		dm := r.n(3)
+		c := genApplyCase(r, cfgFor(r), o, dm, dm, 6)
+		// sprinkle tests of the current value
+		var ops2 []opSpec
+		hasTest := false
+		for _, op := range c.ops {
+			if op.op == "test" {
+				hasTest = true
+			} else {
+				ops2 = append(ops2, op)
+			}
+		}
+		if !hasTest {
+			continue
+		}
+		sp := spell{dm, r}
+		if dm == 2 {
+			sp = spell{1, r}
+		}
+		p1, p2 := sp.patchText(c.ops), sp.patchText(ops2)
+		a := callApply(o, "", c.doc, p1)
+		if !strings.HasPrefix(a, "ok:") {
+			continue
+		}
+		b := callApply(o, "", c.doc, p2)
+		emit("TESTTR %s%d %s %s %s %s => %s %s", pfx, i, o.flags(), hx(c.doc), hx(p1), hx(p2), a, b)
+		i++
+	}
+}
+
+// a value derived from v by a few random edits
+func mutateValue(r *rng, v *jv, c genCfg) *jv {
+	w := v.clone()
+	edits := 1 + r.n(3)
+	for e := 0; e < edits; e++ {
+		var locs []loc
+		locations(w, "", &locs)
+		l := locs[r.n(len(locs))]
+		t := l.v
+		switch r.n(6) {
+		case 0:
+			if t.kind == kObj && len(t.keys) > 0 {
+				i := r.n(len(t.keys))
+				t.keys = append(t.keys[:i:i], t.keys[i+1:]...)
+				t.vals = append(t.vals[:i:i], t.vals[i+1:]...)
+			}
+		case 1:
+			if t.kind == kObj {
+				name := r.pick(plainNames)
+				dup := false
+				for _, k := range t.keys {
+					if k == name {
+						dup = true
+					}
+				}
+				if !dup {
+					t.keys = append(t.keys, name)
+					t.vals = append(t.vals, genValue(r, c, 2))
+				}
+			}
+		case 2:
+			if t.kind == kArr && len(t.arr) > 0 {
+				i := r.n(len(t.arr))
+				t.arr[i] = genValue(r, c, 2)
+			}
+		case 3:
+			if t.kind == kObj && len(t.keys) > 1 {
+				i, j := r.n(len(t.keys)), r.n(len(t.keys))
+				t.keys[i], t.keys[j] = t.keys[j], t.keys[i]
+				t.vals[i], t.vals[j] = t.vals[j], t.vals[i]
+			}
+		case 4:
+			if t.kind == kObj && len(t.keys) > 0 {
+				i := r.n(len(t.keys))
+				t.vals[i] = genValue(r, c, 2)
+			}
+		default:
+			if t.kind == kArr {
+				t.arr = append(t.arr, genValue(r, c, 2))
+			}
+		}
+	}
+	return w
+}
+
+func streamEqual(r *rng, n int, pfx string) {
+	for i := 0; i < n; i++ {
+		c := cfgFor(r)
+		var a *jv
+		if r.chance(1, 5) {
+			a = genValue(r, c, 0)
+		} else {
+			a = genContainer(r, c)
+		}
+		var b *jv
+		switch r.n(4) {
+		case 0:
+			b = a.clone()
+		case 1:
+			b = shuffleMembers(r, a.clone())
+		default:
+			b = mutateValue(r, a, c)
+		}
+		ta, tb := spell{r.n(3), r}.text(a), spell{r.n(3), r}.text(b)
+		if r.chance(1, 20) {
+			tb = corrupt(r, tb)
+		}
+		if r.chance(1, 40) {
+			ta = corrupt(r, ta)
+		}
+		sa, sb := append([]byte(nil), ta...), append([]byte(nil), tb...)
+		res := callEqual(ta, tb)
+		res2 := callEqual(tb, ta)
+		mut := ""
+		if !bytes.Equal(sa, ta) || !bytes.Equal(sb, tb) {
+			mut = " mut=1"
+		}
+		emit("EQUAL %s%da %s %s => %s%s", pfx, i, hx(ta), hx(tb), res, mut)
+		emit("EQUAL %s%db %s %s => %s%s", pfx, i, hx(tb), hx(ta), res2, mut)
+	}
+}
+
+func shuffleMembers(r *rng, v *jv) *jv {
+	if v.kind == kObj {
+		for i := len(v.keys) - 1; i > 0; i-- {
+			j := r.n(i + 1)
+			v.keys[i], v.keys[j] = v.keys[j], v.keys[i]
+			v.vals[i], v.vals[j] = v.vals[j], v.vals[i]
+		}
+	}
+	for _, x := range v.arr {
+		shuffleMembers(r, x)
+	}
+	for _, x := range v.vals {
+		shuffleMembers(r, x)
+	}
+	return v
+}
+
+// a merge patch derived from the document: touches existing members, deletes, nests
+func genMergePatch(r *rng, doc *jv, c genCfg, depth int) *jv {
+	if doc.kind != kObj || r.chance(1, 8) {
+		return genValue(r, c, 1)
+	}
+	p := &jv{kind: kObj}
+	add := func(k string, v *jv) {
+		for _, x := range p.keys {
+			if x == k {
+				return
+			}
+		}
+		p.keys = append(p.keys, k)
+		p.vals = append(p.vals, v)
+	}
+	for i, k := range doc.keys {
+		switch r.n(6) {
+		case 0:
+			add(k, jnull())
+		case 1:
+			add(k, genValue(r, c, 2))
+		case 2:
+			if depth < 3 {
+				add(k, genMergePatch(r, doc.vals[i], c, depth+1))
+			}
+		}
+	}
+	for j := r.n(3); j > 0; j-- {
+		name := r.pick(plainNames)
+		if !c.plain && r.chance(1, 4) {
+			name = r.pick(namePool)
+		}
+		v := genValue(r, c, 2)
+		if r.chance(1, 5) {
+			v = jnull()
+		}
+		add(name, v)
+	}
+	return p
+}
+
+func streamMerge(r *rng, n int, pfx string) {
+	for i := 0; i < n; i++ {
+		c := cfgFor(r)
+		c.nullW = 2 + r.n(3)
+		var d *jv
+		if r.chance(1, 8) {
+			d = genValue(r, c, 0)
+		} else {
+			d = genObj(r, c, 0)
+		}
+		p := genMergePatch(r, d, c, 0)
+		td, tp := spell{r.n(3), r}.text(d), spell{r.n(3), r}.text(p)
+		if r.chance(1, 40) {
+			tp = corrupt(r, tp)
+		}
+		sd, spb := append([]byte(nil), td...), append([]byte(nil), tp...)
+		res := callMerge(td, tp)
+		mut := ""
+		if !bytes.Equal(sd, td) || !bytes.Equal(spb, tp) {
+			mut = " mut=1"
+		}
+		emit("MERGE %s%d %s %s => %s%s", pfx, i, hx(td), hx(tp), res, mut)
+	}
+}
+
+func streamCompose(r *rng, n int, pfx string) {
+	for i := 0; i < n; i++ {
+		c := cfgFor(r)
+		c.nullW = 2 + r.n(3)
+		d := genObj(r, c, 0)
+		if r.chance(1, 10) {
+			d = genValue(r, c, 0)
+		}
+		p1 := genMergePatch(r, d, c, 0)
+		var mid *jv
+		if b, ok := okBytes(callMerge(spell{1, r}.text(d), spell{1, r}.text(p1))); ok {
+			mid, _ = parseJV(b)
+		}
+		if mid == nil {
+			mid = d
+		}
+		var p2 *jv
+		if r.chance(1, 2) {
+			p2 = genMergePatch(r, mid, c, 0)
+		} else {
+			p2 = genMergePatch(r, p1, c, 0) // shaped after p1: overlaps at depth
+		}
+		t1, t2, td := spell{r.n(3), r}.text(p1), spell{r.n(3), r}.text(p2), spell{r.n(3), r}.text(d)
+		comb := callMergeMerge(t1, t2)
+		seq := "err:-n"
+		if b, ok := okBytes(callMerge(td, t1)); ok {
+			seq = callMerge(b, t2)
+		}
+		app := "err:-n"
+		if b, ok := okBytes(comb); ok {
+			app = callMerge(td, b)
+		}
+		emit("COMPOSE %s%d %s %s %s => %s %s %s", pfx, i, hx(t1), hx(t2), hx(td), comb, seq, app)
+	}
+}
+
+func streamCreate(r *rng, n int, pfx string) {
+	for i := 0; i < n; i++ {
+		c := cfgFor(r)
+		if r.chance(2, 3) {
+			c.nullW = 0
+		}
+		var a, b *jv
+		switch r.n(10) {
+		case 0: // arrays of objects
+			k := r.n(4)
+			a, b = &jv{kind: kArr}, &jv{kind: kArr}
+			for j := 0; j < k; j++ {
+				x := genObj(r, c, 1)
+				a.arr = append(a.arr, x)
+				b.arr = append(b.arr, mutateValue(r, x, c))
+			}
+			if r.chance(1, 4) {
+				b.arr = append(b.arr, genObj(r, c, 1))
+			}
+		case 1: // mismatched roots
+			a, b = genValue(r, c, 0), genValue(r, c, 0)
+		default:
+			a = genObj(r, c, 0)
+			if r.chance(1, 8) {
+				b = a.clone()
+			} else {
+				b = mutateValue(r, a, c)
+			}
+			if r.chance(1, 4) {
+				b = shuffleMembers(r, b)
+			}
+		}
+		ta, tb := spell{r.n(3), r}.text(a), spell{r.n(3), r}.text(b)
+		if r.chance(1, 40) {
+			tb = corrupt(r, tb)
+		}
+		sa, sb := append([]byte(nil), ta...), append([]byte(nil), tb...)
+		pobs := callCreate(ta, tb)
+		mobs := "err:-n"
+		if pb, ok := okBytes(pobs); ok {
+			mobs = callMerge(ta, pb)
+		}
+		mut := ""
+		if !bytes.Equal(sa, ta) || !bytes.Equal(sb, tb) {
+			mut = " mut=1"
+		}
+		emit("CREATE %s%d %s %s => %s %s%s", pfx, i, hx(ta), hx(tb), pobs, mobs, mut)
+	}
+}
+
+func optHex(s string, err error) string {
+	if err != nil {
+		return "!"
+	}
+	return hx([]byte(s))
+}
+
+func emitDecode(id string, patch []byte) {
+	res := guarded(func() string {
+		p, err := jsonpatch.DecodePatch(patch)
+		if err != nil {
+			if p != nil {
+				return "err-with-patch"
+			}
+			return "err"
+		}
+		var sb strings.Builder
+		fmt.Fprintf(&sb, "ok %d", len(p))
+		for _, op := range p {
+			path, perr := op.Path()
+			from, ferr := op.From()
+			v, verr := op.ValueInterface()
+			vs := "!"
+			if verr == nil {
+				b, merr := ijson.Marshal(v)
+				if merr == nil {
+					vs = hx(b)
+				}
+			}
+			fmt.Fprintf(&sb, " %s %s %s %s", hx([]byte(op.Kind())), optHex(path, perr), optHex(from, ferr), vs)
+		}
+		return sb.String()
+	})
+	emit("DECODE %s %s => %s", id, hx(patch), res)
+}
+
+func streamDecode(r *rng, n int, pfx string) {
+	kinds := []string{"add", "remove", "replace", "move", "copy", "test", "Add", "delete", ""}
+	vals := []string{`null`, `1`, `"s"`, `"/a"`, `true`, `[]`, `{}`, `{"a":1}`, `[1]`, `1.50`, `"add"`}
+	for i := 0; i < n; i++ {
+		nops := r.n(4)
+		var elems []string
+		for j := 0; j < nops; j++ {
+			if r.chance(1, 15) {
+				elems = append(elems, r.pick(vals))
+				continue
+			}
+			var ms []string
+			kind := kinds[r.n(6)]
+			if r.chance(1, 8) {
+				kind = r.pick(kinds)
+			}
+			member := func(name, okv string) {
+				switch r.n(12) {
+				case 0: // absent
+				case 1:
+					ms = append(ms, fmt.Sprintf(`%s:null`, encString(name, false)))
+				case 2:
+					ms = append(ms, fmt.Sprintf(`%s:%s`, encString(name, false), r.pick(vals)))
+				case 3: // duplicate, last wins
+					ms = append(ms, fmt.Sprintf(`%s:%s`, encString(name, false), r.pick(vals)))
+					ms = append(ms, fmt.Sprintf(`%s:%s`, encString(name, false), okv))
+				case 4: // different case
+					ms = append(ms, fmt.Sprintf(`%s:%s`, encString(strings.ToUpper(name), false), okv))
+				default:
+					ms = append(ms, fmt.Sprintf(`%s:%s`, encString(name, false), okv))
+				}
+			}
+			member("op", encString(kind, false))
+			member("path", encString(r.pick([]string{"/a", "", "/a/b", "/0", "x"}), false))
+			if kind == "add" || kind == "replace" || kind == "test" || r.chance(1, 6) {
+				member("value", r.pick(vals))
+			}
+			if kind == "move" || kind == "copy" || r.chance(1, 6) {
+				member("from", encString("/b", false))
+			}
+			if r.chance(1, 5) {
+				ms = append(ms, `"extra":[1,2]`)
+			}
+			if r.chance(1, 3) {
+				for k := len(ms) - 1; k > 0; k-- {
+					l := r.n(k + 1)
+					ms[k], ms[l] = ms[l], ms[k]
+				}
+			}
+			elems = append(elems, "{"+strings.Join(ms, ",")+"}")
+		}
+		text := []byte("[" + strings.Join(elems, ",") + "]")
+		switch r.n(30) {
+		case 0:
+			text = []byte(r.pick(vals))
+		case 1:
+			text = corrupt(r, text)
+		case 2:
+			text = []byte(" " + string(text) + "\n")
+		}
+		emitDecode(fmt.Sprintf("%s%d", pfx, i), text)
+	}
+}
+
+// ---------- malformed texts ----------
+
+var handMade = []string{"", " ", "{", "}", "[", "]", "\"", "1x", "01", "-", "1.", "1e", ".5", "tru", "nul", "[1,]", "{\"a\"}",
+	"{\"a\":}", "{,}", "[,]", "\"\\x\"", "\"\\u12\"", "\"\x01\"", "\"a\xffb\"", "[1 2]", "{\"a\":1,}", "nulll", "true false",
+	"\ufeff[]", "[]\x00", "\v[]", "\f1", "[1]x", "{\"a\":1}{", "'a'", "{a:1}", "+1", "0x10", "1e+", "-0", "0e0", "1E-2",
+	"\"\\ud800\"", "\"\\udc00\\ud800\"", "[\"\\/\"]", " [1] ", "\t{\"a\" :\r\n1 } ", "null", "false", "\"s\"", "2", "[null]",
+	"{\"\":null}", "[[[]]]", "{\"a\":{\"a\":{}}}", "-1.5E+10", "\"\\u0000\"", "\"\\u2028\"", "1 ", " 1", "[\n]", "{\n}",
+	"\"\\'\"", "\"\\a\"", "[1,,2]", "[1,2", "{\"a\":1", "\"abc", "00", "-01", "1.e1", "1.0e", "--1", "truee", "tr", "n", "f",
+	"{\"a\":1,\"a\":2}", "[\"\xe2\x80\xa8\"]", "[\"<>&\"]"}
+
+func nest(open, cl string, n int) []byte {
+	return []byte(strings.Repeat(open, n) + strings.Repeat(cl, n))
+}
+
+func corrupt(r *rng, t []byte) []byte {
+	b := append([]byte(nil), t...)
+	if len(b) == 0 {
+		return []byte{byte(r.n(256))}
+	}
+	switch r.n(7) {
+	case 0:
+		return b[:r.n(len(b))]
+	case 1:
+		i := r.n(len(b))
+		return append(b[:i:i], b[i+1:]...)
+	case 2:
+		i := r.n(len(b) + 1)
+		c := []byte(" \t\n\r{}[]:,\"\\0123456789-+.eEtrufalsn/x\x00\x1f\x7f\x80\xe2\xff")
+		ins := c[r.n(len(c))]
+		return append(b[:i:i], append([]byte{ins}, b[i:]...)...)
+	case 3:
+		i := r.n(len(b))
+		b[i] = byte(r.n(256))
+		return b
+	case 4:
+		i := r.n(len(b))
+		return append(b[:i+1:i+1], b[i:]...)
+	case 5:
+		return append(b, []byte(r.pick([]string{"x", "]", "}", ",", " 1", "\x00"}))...)
+	default:
+		i, j := r.n(len(b)), r.n(len(b))
+		b[i], b[j] = b[j], b[i]
+		return b
+	}
+}
+
+var deepTexts = false
+
+func genText(r *rng) []byte {
+	k := r.n(100)
+	switch {
+	case k < 20:
+		return []byte(r.pick(handMade))
+	case k < 50:
+		c := cfgFor(r)
+		return spell{r.n(3), r}.text(genValue(r, c, 0))
+	case k < 52:
+		d := []int{9999, 10000, 10001}[r.n(3)]
+		if !deepTexts {
+			// the quadratic entry points take seconds on the deepest texts: keep those rare
+			d = []int{50, 300, 1200}[r.n(3)]
+			if r.chance(1, 60) {
+				d = []int{9999, 10000, 10001}[r.n(3)]
+			}
+		}
+		if r.chance(1, 2) {
+			return nest("[", "]", d)
+		}
+		return []byte(strings.Repeat("{\"a\":", d-1) + "[]" + strings.Repeat("}", d-1))
+	default:
+		c := cfgFor(r)
+		t := spell{r.n(3), r}.text(genValue(r, c, 0))
+		for j := 1 + r.n(2); j > 0; j-- {
+			t = corrupt(r, t)
+		}
+		return t
+	}
+}
+
+func acc(f func() error) byte {
+	s := guarded(func() string {
+		if f() == nil {
+			return "1"
+		}
+		return "0"
+	})
+	if s == "1" || s == "0" {
+		return s[0]
+	}
+	return 'p'
+}
+
+func emitValid(id string, t []byte) {
+	var bits []byte
+	bits = append(bits, acc(func() error {
+		if ijson.Valid(t) {
+			return nil
+		}
+		return errors.New("invalid")
+	}))
+	bits = append(bits, acc(func() error { var b bytes.Buffer; return ijson.Compact(&b, t) }))
+	bits = append(bits, acc(func() error { var b bytes.Buffer; return ijson.Indent(&b, t, "", " ") }))
+	bits = append(bits, acc(func() error { var v interface{}; return ijson.Unmarshal(t, &v) }))
+	bits = append(bits, acc(func() error {
+		if stdValid(t) {
+			return nil
+		}
+		return errors.New("invalid")
+	}))
+	emit("VALID %s %s => %s", id, hx(t), string(bits))
+}
+
+func emitEntry(id string, t []byte) {
+	empty := []byte("{}")
+	var bits []byte
+	bits = append(bits, acc(func() error { _, err := jsonpatch.Patch{}.Apply(t); return err }))
+	bits = append(bits, acc(func() error { _, err := jsonpatch.MergePatch(t, empty); return err }))
+	bits = append(bits, acc(func() error { _, err := jsonpatch.MergePatch(empty, t); return err }))
+	bits = append(bits, acc(func() error { _, err := jsonpatch.MergeMergePatches(t, empty); return err }))
+	bits = append(bits, acc(func() error { _, err := jsonpatch.CreateMergePatch(t, t); return err }))
+	bits = append(bits, acc(func() error {
+		if jsonpatch.Equal(t, t) {
+			return nil
+		}
+		return errors.New("unequal")
+	}))
+	bits = append(bits, acc(func() error { _, err := jsonpatch.DecodePatch(t); return err }))
+	emit("ENTRY %s %s => %s", id, hx(t), string(bits))
+}
+
+func streamValid(r *rng, n int, pfx string) {
+	for i := 0; i < n; i++ {
+		t := genText(r)
+		emitValid(fmt.Sprintf("%s%d", pfx, i), t)
+	}
+}
+
+func streamEntry(r *rng, n int, pfx string) {
+	for i := 0; i < n; i++ {
+		t := genText(r)
+		if len(t) > 3000 && r.chance(3, 4) {
+			t = []byte(r.pick(handMade))
+		}
+		if r.chance(1, 4) {
+			// a well-formed patch document, with whitespace around
+			c := genApplyCase(r, cfgFor(r), aopts{neg: true}, 0, r.n(3), 3)
+			t = []byte(r.pick([]string{"", " ", "\n"}) + string(c.patch) + r.pick([]string{"", " ", "\r\n"}))
+		}
+		emitEntry(fmt.Sprintf("%s%d", pfx, i), t)
+	}
+}
+
+// all byte strings up to length k over a small alphabet
+func streamValidExhaustive(k int) {
+	alpha := []byte("[]{}\":,1-0.e t\\u")
+	var rec func(cur []byte, depth int)
+	idx := 0
+	rec = func(cur []byte, depth int) {
+		emitValid(fmt.Sprintf("x%d", idx), cur)
+		idx++
+		if depth == k {
+			return
+		}
+		for _, c := range alpha {
+			rec(append(append([]byte(nil), cur...), c), depth+1)
+		}
+	}
+	rec(nil, 0)
+}
+
+// C04: every entry point on arbitrary bytes; the ordinary protocol lines are reused so the
+// model is compared too
+func streamBytes(r *rng, n int, pfx string) {
+	for i := 0; i < n; i++ {
+		id := fmt.Sprintf("%s%d", pfx, i)
+		a, b := genText(r), genText(r)
+		if len(a) > 3000 && len(b) > 3000 {
+			b = []byte("[]")
+		}
+		switch r.n(7) {
+		case 0:
+			emit("EQUAL %s %s %s => %s", id, hx(a), hx(b), callEqual(a, b))
+		case 1:
+			emit("MERGE %s %s %s => %s", id, hx(a), hx(b), callMerge(a, b))
+		case 2:
+			pobs := callCreate(a, b)
+			mobs := "err:-n"
+			if pb, ok := okBytes(pobs); ok {
+				mobs = callMerge(a, pb)
+			}
+			emit("CREATE %s %s %s => %s %s", id, hx(a), hx(b), pobs, mobs)
+		case 3:
+			emitDecode(id, a)
+		case 4:
+			emitEntry(id, a)
+		default:
+			// awkward but well-formed: null roots, nulls in arrays, empty keys, root replacement
+			o := randOpts(r)
+			docs := []string{"null", "[null]", "{\"\":null}", "[[null]]", "{\"a\":[null,{\"\":1}]}", "1", "\"s\"", " [1]", "{}", "[]", string(a)}
+			doc := []byte(r.pick(docs))
+			var ops []opSpec
+			root := []string{"null", "[]", "{}", "[null]", "1", "{\"a\":null}"}
+			for j := r.n(4); j >= 0; j-- {
+				switch r.n(6) {
+				case 0:
+					v, _ := parseJV([]byte(r.pick(root)))
+					ops = append(ops, opSpec{op: r.pick([]string{"replace", "add"}), path: "", value: v})
+				case 1:
+					ops = append(ops, opSpec{op: "test", path: r.pick([]string{"", "/a", "/0", "/a/0", "/"})})
+				default:
+					v, _ := parseJV([]byte(`{"a":[null]}`))
+					ops = append(ops, genOp(r, v, cfgFor(r)))
+				}
+			}
+			c := acase{o: o, doc: doc, ops: ops, patch: spell{r.n(3), r}.patchText(ops)}
+			if r.chance(1, 6) {
+				c.patch = b
+			}
+			if r.chance(1, 8) {
+				c.indent = r.pick([]string{" ", "\t", "x", "\n"})
+			}
+			emitApply(id, c)
+		}
+	}
+}
+
 func main() {
-	fmt.Println(ijson.Valid([]byte("[1]")), jsonpatch.Equal([]byte("[1]"), []byte("[1]")), ijson.VerifMaxNestingDepth)
+	out = bufio.NewWriterSize(os.Stdout, 1<<20)
+	defer out.Flush()
+	if len(os.Args) < 2 {
+		fmt.Fprintln(os.Stderr, "usage: harness <stream> [seed] [n]")
+		os.Exit(2)
+	}
+	stream := os.Args[1]
+	seed, n := uint64(1), 100
+	if len(os.Args) > 2 {
+		s, _ := strconv.ParseUint(os.Args[2], 10, 64)
+		seed = s
+	}
+	if len(os.Args) > 3 {
+		n, _ = strconv.Atoi(os.Args[3])
+	}
+	r := &rng{s: seed*0x9e3779b97f4a7c15 + uint64(len(stream))}
+	pfx := stream + strconv.FormatUint(seed, 10) + "-"
+	switch stream {
+	case "apply":
+		streamApply(r, n, pfx)
+	case "ensure":
+		streamEnsure(r, n, pfx)
+	case "limit":
+		streamLimit(r, n, pfx)
+	case "allow":
+		streamAllow(r, n, pfx)
+	case "testtr":
+		streamTestTr(r, n, pfx)
+	case "equal":
+		streamEqual(r, n, pfx)
+	case "merge":
+		streamMerge(r, n, pfx)
+	case "compose":
+		streamCompose(r, n, pfx)
+	case "create":
+		streamCreate(r, n, pfx)
+	case "decode":
+		streamDecode(r, n, pfx)
+	case "valid":
+		deepTexts = true
+		streamValid(r, n, pfx)
+	case "validx":
+		streamValidExhaustive(n)
+	case "entry":
+		streamEntry(r, n, pfx)
+	case "bytes":
+		streamBytes(r, n, pfx)
+	case "scan":
+		out.Flush()
+		ijson.VerifScanTable(os.Stdout)
+	case "codec":
+		streamCodec(r, n, pfx)
+	case "std":
+		streamStd(r, n, pfx)
+	case "hist":
+		streamHist(r, n, pfx)
+	case "conc":
+		streamConc(r, n, pfx)
+	case "cli":
+		streamCli(r, n, pfx)
+	case "corpus":
+		streamCorpus()
+	case "replay":
+		replay()
+	case "legacy-apply", "legacy-merge", "legacy-create", "legacy-compose", "legacy-equal", "legacy-bytes", "legacy-limit":
+		streamLegacy(stream, r, n, pfx)
+	default:
+		fmt.Fprintln(os.Stderr, "unknown stream", stream)
+		os.Exit(2)
+	}
 }
